@@ -22,14 +22,14 @@ not to repeat them, from wave 3 on hints at untried directions; nothing from `/v
 property, still compile, still pass the 56 pinned tests, and need something specific to manifest. Every candidate was
 confirmed by me in a scratch worktree with `tools/confirm_seeded.py` — (a) clean tree: the demonstration passes; (b) patched:
 `go build ./...` succeeds, the pinned suite passes, the demonstration fails — before it was kept under
-`/verif/seeded/<name>/` (`patch.diff`, `demo_test.go`, `meta.json`). {nseed} of {nseed} candidates were confirmed (three
+`/verif/seeded/<name>/` (`patch.diff`, `demo_test.go`, `meta.json`). Every candidate the sub-agents delivered was confirmed ({nseed} kept; a few
 patches were rebased by hand after a later `fix:` commit touched their context, and re-confirmed). `./selftest sensitivity`
 applies each patch to a scratch worktree of `/repo` HEAD (never to `/repo` itself), points the *quick* check of the property at
 it (`VERIF_REPO`) and expects exit 1 with a `VIOLATION` line; the last full pass is in `seeded/RESULTS.json`.
 
 Result, per wave ("caught by the checks as they stood" = the verdict of the first run after the wave came back; for wave 7
 most of those first runs were *not* blind — I had read the summaries and strengthened the generators before running, and the
-table says so; waves 6, 8 and 9 were run blind):
+table says so; waves 6, 8, 9, 10 and 11 were run blind):
 
 ```
 {stats.strip()}
@@ -37,7 +37,9 @@ table says so; waves 6, 8 and 9 were run blind):
 
 Now {caught} of {nseed} are caught by the quick tier within its normal budget ({byother} of them by the check of the property
 whose quantifier they really belong to — a fault sequence is C15's, a shared-object schedule is C19's; see the table);
-not caught: {", ".join(missed) if missed else "none"} (C15-w2-3 is accepted as a miss: it is outside the stated fault model).
+not caught: {", ".join(missed) if missed else "none"} (C15-w2-3 and C15-w9-3 are accepted as outside the stated properties; the three
+wave-11 entries are open misses, see the last bullet of the list below; C03-w6-2 was retired — fix e926725 made it harmless — and
+lives under `seeded/retired/`).
 "first" = verdict when the wave came back, "now" = current verdict. The {nben} behaviour-preserving edits under `/verif/benign`
 (twelve written by me, {nben - 12} large restructurings by independent sub-agents who were asked for correct caches, locks, pools,
 zero-copy plumbing and reorganised I/O paths) stay silent on every check they touch (`./selftest specificity`, {silent} check
